@@ -169,6 +169,24 @@ def run(chk, tier, seed):
     chk.case(key='c10', n=total * len(base) * 2)
     for i in range(min(total, 5000)):
         chk.nontrivial.add(('c10', i))
+    # malformed constructs degrade to their literal meaning: a pattern whose group opener is never closed means the same with and without EXTMATCH
+    from wcmatch import fnmatch as _F, glob as _G
+    unterminated = ['?(abc', '*(abc', '@(a', '+(a|b', '!(a', '?(a|b', '*(', 'x?(ab', '?(a[b', 'a/*(b', '*(a/b']
+    cand = [''.join(t) for n in range(1, 5) for t in itertools.product('a(b|.', repeat=n)] + ['.(abc', 'x(abc', '.(a|b', 'a/.(b', 'a/x(b', 'x(ab', '.(a[b']
+    nd = 0
+    for p in unterminated:
+        for api, nm, fls in ((_F, 'fnmatch', (0, _F.D)), (_G, 'glob', (0, _G.D, _G.G))):
+            for base_fl in fls:
+                nd += 1
+                a = api.filter(cand, p, flags=base_fl | api.E | api.U) if api is _F else api.globfilter(cand, p, flags=base_fl | api.E | api.U)
+                b = api.filter(cand, p, flags=base_fl | api.U) if api is _F else api.globfilter(cand, p, flags=base_fl | api.U)
+                if a != b:
+                    diff = sorted(set(a) ^ set(b))[:4]
+                    chk.violation(dict(obligation='C10.bounded.unterminated_group_means_the_same_with_and_without_EXTMATCH', pattern=p, api=nm, witness=diff[0]),
+                                  f'{nm}: the unterminated pattern {p!r} (flags {base_fl}) differs with / without EXTMATCH on {diff}',
+                                  f"import sys; sys.path.insert(0, {REPO!r})\nfrom wcmatch import {nm} as m\nf = m.filter if hasattr(m, 'filter') else m.globfilter\nn = {diff!r}\n"
+                                  f"a, b = f(n, {p!r}, flags={base_fl} | m.E | m.U), f(n, {p!r}, flags={base_fl} | m.U)\nprint(a, b)\nsys.exit(0 if a == b else 1)\n")
+    chk.case(key='degrade', n=nd)
     chk.rule = (f'exhaustive strings over 4 focused alphabets (general 16 symbols to length {n_gen}; group tokens; bracket tokens; RAWCHARS escapes), token-level mutations of 17 valid patterns, '
                 'seeded random strings of length 5-40, nesting depth 5/10/20; each string as str and bytes x 5 flag sets through fnmatch/glob translate, filter, both splitters, glob on an empty '
                 'directory and WcMatch; allowed: PatternLimitException, SyntaxError, KeyError, ValueError("relative path pattern"); every translate regex must compile')
